@@ -71,6 +71,19 @@ def _other(t, seg, role=None):
   return b if a == seg else a
 
 
+def _per_line(texts):
+  """collection entries -> one per written line: a circular edge (both sides on this collection) appears twice
+  for a single line.  Identical anonymous lines are distinct lines: count how many are written."""
+  out, seen = [], {}
+  for t in texts:
+    seen[t] = seen.get(t, 0) + 1
+  for t, n in seen.items():
+    f = t.split("\t")
+    circular = (f[1] == f[3]) if f[0] in ("L", "C") else (f[2][:-1] == f[3][:-1])
+    out += [t] * ((n + 1) // 2 if circular else n)
+  return out
+
+
 def check(g):
   """-> list of discrepancies between gfapy's answers and the specification"""
   bad = []
@@ -86,18 +99,20 @@ def check(g):
     s = str(seg.name)
     if s not in exp: continue
     for end in "LR":
-      want = sorted(set(_other(t, s) for t in exp[s]["dovetails_" + end]))
-      got = sorted(set(str(x.name) for x in getattr(seg, "neighbours_" + end)))
+      # one entry per dovetail *line* on that end (answers are de-duplicated by line, not by segment); a hairpin
+      # is one line listed twice in the collection
+      want = sorted(_other(t, s) for t in _per_line(exp[s]["dovetails_" + end]))
+      got = sorted(str(x.name) for x in getattr(seg, "neighbours_" + end))
       if want != got:
         bad.append("%s.neighbours_%s: spec %r, gfapy %r" % (s, end, want, got))
       got2 = sorted(canon_text(line_text(x)) for x in seg.dovetails_of_end(end))
       if got2 != exp[s]["dovetails_" + end]:
         bad.append("%s.dovetails_of_end(%s): spec %r, gfapy %r" % (s, end, exp[s]["dovetails_" + end], got2))
-    want = sorted(set(_other(t, s) for t in exp[s]["edges_to_containers"]))
-    got = sorted(set(str(x.name) for x in seg.containers))
+    want = sorted(_other(t, s) for t in _per_line(exp[s]["edges_to_containers"]))
+    got = sorted(str(x.name) for x in seg.containers)
     if want != got: bad.append("%s.containers: spec %r, gfapy %r" % (s, want, got))
-    want = sorted(set(_other(t, s) for t in exp[s]["edges_to_contained"]))
-    got = sorted(set(str(x.name) for x in seg.contained))
+    want = sorted(_other(t, s) for t in _per_line(exp[s]["edges_to_contained"]))
+    got = sorted(str(x.name) for x in seg.contained)
     if want != got: bad.append("%s.contained: spec %r, gfapy %r" % (s, want, got))
   return bad
 
